@@ -1,5 +1,5 @@
 /* base runtime of every ir2c translation: exception flag, traps, libc ("C" locale, ISO C contracts) */
-int __vf_exc_pending; void *__vf_exc_obj; void *__vf_exc_type;
+VF_TLS int __vf_exc_pending; VF_TLS void *__vf_exc_obj; VF_TLS void *__vf_exc_type;
 void __vf_unmodeled(const char *name) { __CPROVER_assert(0, "unmodeled external reached"); }
 void *__vf_alloca(size_t n) { void *p = malloc(n ? n : 1); __CPROVER_assume(p != 0); return p; }
 uint64_t x_strlen(uint8_t *p) { uint64_t n = 0; while (p[n]) n++; return n; }
